@@ -127,6 +127,12 @@ class Run:
         case.setdefault("what", what)
         with open(path, "w") as f:
             json.dump(case, f, indent=1, default=str)
+        ndup = sum(1 for v in self.violations + self.known_hits if v["finding_key"] == finding_key)
+        if replay and ndup >= 3:
+            # the same finding was already replayed and confirmed three times on other structures
+            self.obligations[key] = "violated-duplicate"
+            self.extra["duplicates_not_replayed"] = self.extra.get("duplicates_not_replayed", 0) + 1
+            return True
         if replay:
             try:
                 p = subprocess.run([PY, "-m", f"checks.{self.pid}", "--replay", path], cwd=VERIF,
@@ -195,6 +201,14 @@ class Run:
         os.makedirs(os.path.join(VERIF, "evidence"), exist_ok=True)
         with open(os.path.join(VERIF, "evidence", f"{self.pid}.json"), "w") as f:
             json.dump(ev, f, indent=1, default=str)
+        try:
+            import jsonschema
+            jsonschema.validate(ev, json.load(open("/root/.vp/EVIDENCE.schema.json")))
+        except ImportError:
+            pass
+        except Exception as exc:
+            print(f"HARNESS-ERROR evidence file does not validate: {str(exc)[:300]}", flush=True)
+            self.errors.append({"obligation": "evidence", "error": str(exc)[:300]})
         print(f"[{self.pid}] tier={self.tier} obligations={n_ob} discharged={n_dis} known={len(self.known_hits)} "
               f"violations={len(self.violations)} inconclusive={len(self.inconclusive)} errors={len(self.errors)} "
               f"queries={self.q} solver_s={self.solver_s:.1f} wall_s={wall:.1f}", flush=True)
